@@ -41,7 +41,7 @@ def gen_cases(tier, seed):
 def make_dist(rng):
     T = rng.choice([1, 2, 2, 3, 4])
     nk = rng.randint(1, 12)
-    top = 7 if rng.random() < 0.93 else rng.choice([300, 70000])      # rarely: degrees beyond 255 / 65535
+    top = 7 if rng.random() < 0.9 else rng.choice([300, 70000, 2 ** 62, 2 ** 63 + 5])      # rarely: degrees beyond 255 / 65535 / what a machine word holds (Python integers have no width: totals beyond 2**63 are totals)
     keys = list({tuple(rng.randrange(0, top) for _ in range(T)) for _ in range(nk)})
     wstyle = rng.choice(["spread", "equal", "dominant", "normalised", "almost-normalised"])
     if wstyle == "equal":
